@@ -20,6 +20,8 @@
      Note that a module reads beingProcessed, NOT neuronSignals: for an index below sensorNeuronCount that
      array is never assigned by the activation loop, so a module input that is a sensor reads 0 (or what
      connections into sensors accumulated there) instead of the sensor's value.
+   * Flush is Fast.fast_flush: neuronSignals from biasNeuronCount on and the WHOLE scratch array are cleared (a module
+     may write the scratch slot of a bias neuron and another one read it).
    * RecursiveSteps returns an error as soon as there is one module, before touching anything.
    * [fast_of_net_mod]: Fast.fast_of_net on the ordinary nodes, then the control-node loop of
      FastNetworkSolver: every Incoming.InNode / Outgoing.OutNode is looked up in neuronLookup; a failed
